@@ -639,10 +639,10 @@ pub fn run(ctx: &Ctx) -> i32 {
         &outcome,
         EvidenceSpec {
             level: "exploration",
-            rule: "the real release binary is run (RLIMIT_CPU 120 s, RLIMIT_AS 4 GiB, cleared environment) on generated projects of 1-3 files x random supported options (curve, level, verbose, SARIF, allow list): (a) byte strings (raw bytes, ASCII, token soup over the grammar's terminals), (b) grammar-valid files — `wild` files using every production with no semantic discipline and semantically valid files, both under random layouts with comments/CRLF/non-ASCII, (d) small inputs (< 8 KiB) with one deeply nested construct — 16 shapes (operator chains in both directions, Horner, conditional expressions, prefix operators, array indices, calls, if/else-if/blocks/loops, parentheses, array literals, tuples, anonymous components) at depth 10..400 (array indices 40, loops 12, anonymous components 60), (c) near-valid inputs = 1-3 token-level mutations (delete, duplicate, swap, replace/insert a terminal, truncate, drop a declaration keyword, splice raw or invalid UTF-8 bytes) of (b); plus replay of all committed seed/reproducer files under all three curves and nine directory-argument cases (nested directories, non-Circom files, symlink cycles). (e) the include projects of C19 (cycles, diamonds and self includes over relative paths, `-L` directories and `-L` files, symlinks, directory arguments, files with other extensions or unsupported pragmas) with only termination and exit status judged. Clean termination = exit 0 or 1 by itself, last stdout line is the summary, status matches the summary, no `panicked at` / stack overflow / allocation failure / signal; a resource-limit hit is re-run with 4x budget before it counts. Non-trivial = distinct input (content hash) that reached the analysis stage (>= 1 `analyzing` line).",
+            rule: "the real release binary is run (RLIMIT_CPU 30 s in the quick and 120 s in the thorough tier, RLIMIT_AS 4 GiB, cleared environment) on generated projects of 1-3 files x random supported options (curve, level, verbose, SARIF, allow list): (a) byte strings (raw bytes, ASCII, token soup over the grammar's terminals), (b) grammar-valid files — `wild` files using every production with no semantic discipline and semantically valid files, both under random layouts with comments/CRLF/non-ASCII, (d) small inputs (< 8 KiB) with one deeply nested construct — 16 shapes (operator chains in both directions, Horner, conditional expressions, prefix operators, array indices, calls, if/else-if/blocks/loops, parentheses, array literals, tuples, anonymous components) at depth 10..400 (array indices 40, loops 12, anonymous components 60), (c) near-valid inputs = 1-3 token-level mutations (delete, duplicate, swap, replace/insert a terminal, truncate, drop a declaration keyword, splice raw or invalid UTF-8 bytes) of (b); plus replay of all committed seed/reproducer files under all three curves and nine directory-argument cases (nested directories, non-Circom files, symlink cycles). (e) the include projects of C19 (cycles, diamonds and self includes over relative paths, `-L` directories and `-L` files, symlinks, directory arguments, files with other extensions or unsupported pragmas) with only termination and exit status judged. Clean termination = exit 0 or 1 by itself, last stdout line is the summary, status matches the summary, no `panicked at` / stack overflow / allocation failure / signal; a resource-limit hit is re-run with 4x budget before it counts. Non-trivial = distinct input (content hash) that reached the analysis stage (>= 1 `analyzing` line).",
             assumptions: vec![
                 "modest size: files <= 16 KiB; nesting depth <= 8 in the grammar generators and <= 400 in the nesting-depth domain (a single statement with >= 1000 operators overflowing the stack is recorded separately as a known finding)".into(),
-                "unbounded running is approximated by a CPU budget of 120 s (480 s on re-run; 30 s / 120 s for the nesting-depth inputs, which take about a second), far above the documented 2 x 10 s time box".into(),
+                format!("unbounded running is approximated by a CPU budget of {} s ({} s on the re-run that every limit hit gets; {} s / {} s for the nesting-depth inputs); the slowest run of this process is reported in coverage.budgets, the documented time box is 2 x 10 s", first_budget(ctx, "grammar"), 4 * first_budget(ctx, "grammar"), first_budget(ctx, "deep"), 4 * first_budget(ctx, "deep")),
             ],
             extra: json!({"coverage_guided_stage": fuzz_extra}),
         },
